@@ -2,6 +2,7 @@ import GarbleVerif.Proofs.ArithMul
 import GarbleVerif.Proofs.ArithDiv
 import GarbleVerif.Proofs.ArithSMul
 import GarbleVerif.Proofs.ArithShift
+import GarbleVerif.Proofs.ArithConstMul
 /-!
 # C03 — integer operators and casts are bit-exact at every width
 
@@ -16,8 +17,11 @@ signed: magnitudes multiplied, sign restored, overflow exactly when not represen
 `<`/`>` (unsigned, signed), `==`/`!=`, `&`/`|`/`^`/`!`, every cast,
 `<<` / `>>` (8, 16, 32, 64 bits: overflow ⇔ amount ≥ width, otherwise multiplication / floor division by
 `2^amount`).
-Not proved: the multiplication-by-literal rewrite (`constMul`: repeated checked addition), explored
-exhaustively at 8 bits and at boundary values for wider types by the check, like every other operator.
+Multiplication by a literal (`constMul`: the operand is added `n` times, each addition checked; for a negative
+literal the sum is negated): exact for unsigned operands and for positive literals; for a negative literal `-n` the
+flag is set exactly when `n·y` is not strictly inside `(-2^w, 2^w)` — so the product `MIN` (`n·y = 2^w`) is reported as
+an overflow although it is representable. That is the recorded finding of C03; `C03_constMul_neg_finding` states it
+exactly: the flag is spurious *only* there.
 -/
 namespace GV
 namespace Arith
@@ -128,7 +132,41 @@ theorem C03_shift (left sx : Bool) (x amt : List Bool) (hx : x.length ∈ [8, 16
       (left = false → valOf sx (shift left sx x amt).1 = valOf sx x / (2 : Int) ^ toNat amt)) :=
   shift_spec left sx x amt hx ha
 
+/-- `x * n` for an unsigned `x` and a literal `n ≥ 1` compiled as repeated addition -/
+theorem C03_constMul_unsigned (y : List Bool) (n : Nat) (hn : 1 ≤ n) :
+    let r := constMul y false n false
+    r.1.length = y.length ∧ (r.2 = false → toNat r.1 = n * toNat y) ∧ (r.2 = true ↔ 2 ^ y.length ≤ n * toNat y) :=
+  constMul_unsigned y n hn
+
+/-- `x * n` for a signed `x` and a positive literal -/
+theorem C03_constMul_signed (b : Bool) (yr : List Bool) (n : Nat) (hn : 1 ≤ n) :
+    let r := constMul (b :: yr) true n false
+    r.1.length = yr.length + 1 ∧
+    (r.2 = false → toInt r.1 = (n : Int) * toInt (b :: yr)) ∧
+    (r.2 = true ↔ ((n : Int) * toInt (b :: yr) < -(2 : Int) ^ yr.length ∨
+      (2 : Int) ^ yr.length ≤ (n : Int) * toInt (b :: yr))) :=
+  constMul_signed_pos b yr n hn
+
+/-- `x * -n`: exact unless flagged; flagged exactly when `n·x` is not strictly inside `(-2^w, 2^w)` -/
+theorem C03_constMul_neg (b : Bool) (yr : List Bool) (n : Nat) (hn : 1 ≤ n) :
+    let r := constMul (b :: yr) true n true
+    (r.2 = false → toInt r.1 = -((n : Int) * toInt (b :: yr))) ∧
+    (r.2 = true ↔ ((n : Int) * toInt (b :: yr) ≤ -(2 : Int) ^ yr.length ∨
+      (2 : Int) ^ yr.length ≤ (n : Int) * toInt (b :: yr))) :=
+  constMul_signed_neg b yr n hn
+
+/-- the recorded finding, exactly: the flag is set although the product is representable iff the product is `MIN` -/
+theorem C03_constMul_neg_finding (b : Bool) (yr : List Bool) (n : Nat) (hn : 1 ≤ n) :
+    let r := constMul (b :: yr) true n true
+    let prod := -((n : Int) * toInt (b :: yr))
+    (r.2 = true ∧ -(2 : Int) ^ yr.length ≤ prod ∧ prod < (2 : Int) ^ yr.length) ↔ prod = -(2 : Int) ^ yr.length :=
+  constMul_neg_spurious b yr n hn
+
 /-! ### non-vacuity / sanity on concrete operands (8 bits) -/
+
+/-- `64i8 * -2`: the product -128 is representable, the compiled code reports an overflow (the finding) -/
+example : (constMul [false, true, false, false, false, false, false, false] true 2 true).2 = true := by decide +kernel
+
 
 example : toInt [true, false, false, false, false, false, false, false] = -128 := by decide
 example : (negChecked [true, false, false, false, false, false, false, false]).2 = true := by decide
